@@ -581,14 +581,16 @@ class ASTString(ASTTemplate):
             return "", ""
         grouping = ""
         if node.grouping is not None:
-            grouping_sep = ", " if len(node.grouping) > 1 else ""
             grouping_values = []
+            time_agg = ""
             for grouping_value in node.grouping:
                 if isinstance(grouping_value, TimeAggregation):
-                    grouping_values.append(self.visit(grouping_value))
+                    # the grammar puts time_agg after the component list, without a comma
+                    time_agg = f" {self.visit(grouping_value)}"
                 else:
                     grouping_values.append(_format_reserved_word(grouping_value.value))
-            grouping = f" {node.grouping_op} {grouping_sep.join(grouping_values)}"
+            names = f" {', '.join(grouping_values)}" if grouping_values else ""
+            grouping = f" {node.grouping_op}{names}{time_agg}"
         having = f" {self.visit(node.having_clause)}" if node.having_clause is not None else ""
         return grouping, having
 
